@@ -288,7 +288,8 @@ static void put_int(Buf *o, uint8_t base, int64_t v, int k) { put(o, (uint8_t)(b
 
 /* name pool, sorted bytewise (memcmp then length) at start-up */
 typedef struct { const char *s; int n; } Name;
-static Name NM[] = { {"", 0}, {"\0", 1}, {"\0a", 2}, {"a", 1}, {"a\0", 2}, {"a\0b", 3}, {"aa", 2}, {"ab", 2}, {"abc", 3}, {"b", 1}, {"c", 1},
+static char LONG127[128], LONG128[129], LONG321[322], LONG33000[33001];
+static Name NM[] = { {LONG127, 127}, {LONG128, 128}, {LONG321, 321}, {LONG33000, 33000}, {"", 0}, {"\0", 1}, {"\0a", 2}, {"a", 1}, {"a\0", 2}, {"a\0b", 3}, {"aa", 2}, {"ab", 2}, {"abc", 3}, {"b", 1}, {"c", 1},
     {"d", 1}, {"e", 1}, {"key", 3}, {"z\x7f", 2}, {"\x80", 1}, {"\x80\x01", 2}, {"\xc3\xa5", 2}, {"\xff", 1}, {"\xff z", 3} };
 #define NNM ((int)(sizeof NM / sizeof *NM))
 static int namecmp(const void *a, const void *b) { const Name *x = a, *y = b; int m = x->n < y->n ? x->n : y->n; int r = memcmp(x->s, y->s, (size_t)m); return r ? r : x->n - y->n; }
@@ -365,6 +366,7 @@ static void gen_object(Buf *o, int depth, int *budget) {
     for (int i = 0; i < n && idx < NNM && *budget > 0; i++) {
         (*budget)--;
         Name *nm = &NM[idx];
+        if (nm->n > 1000 && !big_ok) { idx++; if (idx >= NNM) break; nm = &NM[idx]; }
         if (hit(F_DESC) && idx > 0) nm = &NM[rn((uint32_t)idx)];
         if (!hit(F_NONAME)) put_blob(o, 0x14, (const uint8_t *)nm->s, (size_t)nm->n);
         if (hit(F_EXTRANAME)) put_blob(o, 0x14, (const uint8_t *)"zz", 2);
@@ -430,7 +432,7 @@ static void init_doc(int k, int arr, Buf *d) { char *h = hexs(d->b, d->n); emit(
 static uint8_t dn_buf[4]; static Name dn_name;
 static const Name *pick_name(void) {
     if (chance(35)) { int l; dense_name(rn(156), dn_buf, &l); dn_name.s = (const char *)dn_buf; dn_name.n = l; return &dn_name; }
-    return &NM[rn(NNM)];
+    { const Name *n = &NM[rn(NNM)]; if (n->n > 1000 && !chance(10)) n = &NM[rn(NNM)]; return n; }
 }
 static void emit_field(int k, const char *op, const Name *nm, int ty) {
     char *h = hexs((const uint8_t *)nm->s, (size_t)nm->n);
@@ -693,6 +695,7 @@ static void load_corpus_case(long id, const char *path, int valid) {
 int main(int argc, char **argv) {
     setvbuf(stdout, NULL, _IOFBF, 1 << 16);
     signal(SIGALRM, on_alarm);
+    memset(LONG127, 'k', 127); memset(LONG128, 'k', 128); memset(LONG321, 'k', 321); memset(LONG33000, 'k', 33000);
     qsort(NM, NNM, sizeof *NM, namecmp);
     if (argc >= 4 && !strcmp(argv[1], "replay")) {
         FILE *in = fopen(argv[2], "r"); fout = fopen(argv[3], "w"); if (!in || !fout) { perror("open"); return 2; }
